@@ -41,7 +41,8 @@ REQUIRED = ["histories", "connections_up", "connections_down",
             "barrier_unsupported_path", "reads_carrying_several_messages",
             "connection_level_events_compared", "registry_checks_in_down_handler",
             "errors_resembling_barrier_unsupported", "messages_split_across_reads",
-            "features_replies_on_stale_connections"]
+            "features_replies_on_stale_connections",
+            "connections_closed_again_by_a_down_handler"]
 TIMEOUT = {"quick": 900, "thorough": 7200}
 
 # (datapath id 0 is a legal id: code that tests "if dpid:" instead of
@@ -182,6 +183,24 @@ class Monitor (object):
     except Exception:
       self.fire("registry unreadable inside ConnectionDown",
                 traceback.format_exc()[-300:])
+    self.reclose(p, e.connection, "nexus")
+
+  def reclose (self, p, con, where):
+    """A listener that makes sure the socket of a switch that went away is
+    released: disconnect() on the connection whose loss is being
+    announced."""
+    how = self.case.get("reclose")
+    if not how or how[0] != where or p.down > 2: return
+    self.rep.count("connections_closed_again_by_a_down_handler")
+    # (disconnect(), not close(): close() also closes the descriptor, and a
+    #  connection the I/O loop still lists must keep one -- whoever closes it
+    #  from outside that loop breaks the loop's select, in any version)
+    try:
+      if how[1] == "msg": con.disconnect("dropped once more")
+      else: con.disconnect()
+    except Exception:
+      self.fire("disconnect() from a ConnectionDown handler raises",
+                traceback.format_exc()[-300:])
 
   def on_ps (self, e):
     p = self.peer_of(e.connection)
@@ -209,7 +228,9 @@ class Monitor (object):
       if con.sock is p.c:
         p.con = con
         def up (e): p.cup += 1
-        def down (e): p.cdown += 1
+        def down (e):
+          p.cdown += 1
+          self.reclose(p, con, "con")
         def ps (e): p.cps.append(e.ofp.desc.port_no)
         con.addListenerByName("ConnectionUp", up)
         con.addListenerByName("ConnectionDown", down)
@@ -540,7 +561,7 @@ def do_case (case, rep):
     rep.violation("C09 harness-visible exception",
                   traceback.format_exc()[-900:], case)
     nt = True
-  rep.case(repr(case["ops"]).encode(), nontrivial=bool(nt))
+  rep.case(repr((case["ops"], case.get("reclose"))).encode(), nontrivial=bool(nt))
 
 
 def gen_single (shard, nshards):
@@ -657,7 +678,12 @@ def run (spec, rep):
   elif spec["mode"] == "multi": g = gen_multi(rng, spec["n"], spec["maxlen"])
   else: g = gen_reconnect(rng, spec["n"])
   first = True
+  n = 0
   for case in g:
+    n += 1
+    if n % 3 == 0:
+      case["reclose"] = [("nexus", "msg"), ("con", "msg"), ("nexus", "disconnect"),
+                         ("con", "disconnect")][(n // 3) % 4]
     do_case(case, rep)
     if first: rep.sample(case); first = False
 
